@@ -34,7 +34,7 @@ func (zl *Ziplist) Next() []byte {
 	* entire list to know how many items it holds.*/
 	if zl.length == 65535 {
 		firstByte := zl.buf.ReadByte()
-		if firstByte != 0xFE {
+		if firstByte != 0xFF { // 0xFF is the end marker, 0xFE starts a 5 bytes previous entry length
 			return ReadZiplistEntry2(zl.buf, firstByte)
 		}
 	} else {
